@@ -16,7 +16,7 @@ import os
 HERE = os.path.dirname(os.path.abspath(__file__))
 KNOWN_FILE = os.path.join(HERE, "known_fns.txt")
 MAX_ROUNDS = 4
-MAX_BLOCKS = 400          # do not inline monsters
+MAX_BLOCKS = 2000         # do not inline monsters
 
 
 def load_known():
